@@ -135,8 +135,10 @@ Definition has_shared_user (s : st) (d : nat) : bool :=
    as far as the pool still has them *)
 Definition need_of (t : tree) (s : st) (d : nat) : Z :=
   Z.max ((granted_sub t (gr_shared s) d + 999) / 1000) (if has_shared_user s d then 1 else 0).
+(* shortWithout (Reserve): every pool that loses CPUs -- the subtree of p and its ancestors; for the other pools of a
+   well-formed tree the test is trivially true -- keeps what it needs *)
 Definition spare_allb (t : tree) (s : st) (p : nat) (X : cset) : bool :=
-  forallb (fun d => negb (anc t p d) || (Z.min (need_of t s d) (csize (free_shar s d)) <=? csize (free_shar s d ∖ X))) (pools t).
+  forallb (fun d => Z.min (need_of t s d) (csize (free_shar s d)) <=? csize (free_shar s d ∖ X)) (pools t).
 Definition spare_okb (t : tree) (s : st) (p : nat) (X : cset) : bool :=
   forallb (fun d => negb (anc t p d) || Nat.eqb d p ||
                     (Z.min (need_of t s d) (csize (free_shar s d)) <=? csize (free_shar s d ∖ X))) (pools t).
